@@ -7,6 +7,7 @@ import (
 	"context"
 	"fmt"
 	"math/rand"
+	"net"
 	"net/http"
 	"net/url"
 	"os"
@@ -256,12 +257,47 @@ func c07cReaders(rep *verifkit.Report, base string) {
 				rep.Unspec("a request pinned by older_than answers differently after more records were flushed")
 			}
 		}
+		// Rotation windows on the same log.
+		s.settle()
+		_ = s.l.flushLogBuffer(context.Background())
+		s.cacheSize = -1
+		lines, buffered = s.fileLines(), 0
+		c07cRotateRounds(rep, s, rng, func(prefix string, k int) (names []string) {
+			for i := 0; i < k; i++ {
+				for t0 := time.Now(); time.Since(t0) < 2*time.Microsecond; {
+				}
+				name := fmt.Sprintf("%s-%d.rot.example", prefix, i)
+				names = append(names, name)
+				s.add(name, net.IP{10, 5, byte(i >> 8), byte(i)})
+				buffered++
+				if buffered < int(s.memSize) {
+					continue
+				}
+				for dl := time.Now().Add(3 * time.Second); s.fileLines() < lines+buffered && time.Now().Before(dl); {
+					time.Sleep(100 * time.Microsecond)
+				}
+				lines, buffered = s.fileLines(), 0
+			}
+			s.settle()
+
+			return names
+		}, func() {
+			// The current file has become the rotated one.
+			s.cacheSize = -1
+			lines = s.fileLines()
+		})
+		if s.failed.Load() {
+			return
+		}
 		rep.EventN("readers_searches_started_while_another_was_running", int(overlapped.Swap(0)))
 		if m := int(maxActive.Load()); m > maxSeen {
 			maxSeen = m
 		}
 	}
 	rep.EventN("readers_max_searches_at_the_same_time", maxSeen)
+	if n := rep.EventCount("rotation_window_searches_that_overlapped_the_rotation"); n < 20 {
+		rep.Inconcl(fmt.Sprintf("only %d searches overlapped a rotation", n))
+	}
 	if n := rep.EventCount("readers_searches_started_while_another_was_running"); n < 50 {
 		rep.Inconcl(fmt.Sprintf("only %d searches overlapped another one", n))
 	}
